@@ -32,6 +32,10 @@ def _at_exit():
 atexit.register(_at_exit)
 
 _env = _spec.get('env', {})
+if _env.get('import_random'):
+    # a test module that draws random numbers while it is imported (test data)
+    import random as _random
+    _drawn = [_random.random() for _ in range(_env['import_random'])]
 
 # C07: cut the child's report (written to the *original* stderr captured by
 # SubProcess.global_setup after this import) at a byte offset / inject noise.
